@@ -788,6 +788,10 @@ class HttpStreamSession:
         ``cancel()``, the session is marked finished; further ``exchange()``
         or iteration raises ``RpcError``.
         """
+        # Batches preloaded from an earlier response are discarded too: a
+        # cancelled session hands out nothing further.
+        self._pending_batches.clear()
+        self._pending_error = None
         if self._finished or self._state_bytes is None:
             self._finished = True
             self._state_bytes = None
